@@ -1823,6 +1823,13 @@ class Interp:
         key, positive = self.atom_key(expr, fr)
         sts = self.ev(expr, [st], fr, raised)
         results = []
+        static = self._static_isinstance(expr, fr)
+        if static is not None:
+            for s in sts:
+                self._emit(s, record, expr, fr, key=key, value=static, known=True,
+                           positive=positive, why='static types')
+                results.append((static, s))
+            return results
         for s in sts:
             if key is not None and key[0] == 'is' and key not in s.facts:
                 disjoint = self._identity_disjoint(expr, fr)
@@ -1952,15 +1959,25 @@ class Interp:
                                 if not _fact_has_attr(k)}
                     self._emit(s2, 'leave', expr, fr, callee=callee, how='truth',
                                outcome=out[0])
+                    call_key = ('truth', _txt(expr))
                     if out[0] == 'return':
                         truth = out[2] if len(out) > 2 else False
                         if truth == 'unknown':
                             other = s2.fork()
+                            self._emit(s2, record, expr, fr, key=call_key, value=True,
+                                       known=False, positive=True, inlined=True)
+                            self._emit(other, record, expr, fr, key=call_key, value=False,
+                                       known=False, positive=True, inlined=True)
                             results.append((True, s2))
                             results.append((False, other))
                         else:
+                            self._emit(s2, record, expr, fr, key=call_key,
+                                       value=bool(truth), known=True, positive=True,
+                                       inlined=True)
                             results.append((bool(truth), s2))
                     elif out[0] == 'normal':
+                        self._emit(s2, record, expr, fr, key=call_key, value=False,
+                                   known=True, positive=True, inlined=True)
                         results.append((False, s2))
                     elif out[0] == 'raise':
                         raised.append((out, s2))
@@ -1969,6 +1986,37 @@ class Interp:
         finally:
             self._busy.discard(busy)
         return results
+
+    def _static_isinstance(self, expr, fr: DynFrame) -> Optional[bool]:
+        """``isinstance(x, T)`` decided from the static (or path-given) class of x"""
+        if not (isinstance(expr, ast.Call) and isinstance(expr.func, ast.Name)
+                and expr.func.id == 'isinstance' and len(expr.args) == 2):
+            return None
+        subject = self.etype(expr.args[0], fr)
+        classes = []
+        for term in subject:
+            if term[0] == 'inst':
+                classes.append(term[1])
+            elif term[0] == 'ext' and not term[1].startswith('result-of'):
+                classes.append('ext:' + term[1])
+            else:
+                return None
+        if not classes:
+            return None
+        targets = self.te.exception_classes(expr.args[1], fr.fn.module)
+        if any(t.startswith('ext:?') for t in targets):
+            return None
+        verdicts = set()
+        for cls in classes:
+            if any(self.p.is_subclass(cls, t) for t in targets):
+                verdicts.add(True)
+            elif any(self.p.is_subclass(t, cls) for t in targets) and cls not in SIGNALS:
+                return None  # could be an instance of the subclass
+            else:
+                verdicts.add(False)
+        if len(verdicts) == 1:
+            return verdicts.pop()
+        return None
 
     def _arg_type(self, arg, st: St, fr: DynFrame):
         """static type of an argument; a handler-bound name has the path's exception class"""
